@@ -7,7 +7,11 @@
                          (read at the pinned commit; the classifier is too weak to see it syntactically)
      JNotOnBuildPath     code that krusty.Run never reaches for the generated domain (kio tree/package writers,
                          KRM function runtime, bindata asset tables, plugin-name listing, debug printing,
-                         `crds:` loading which is outside the generated domain)
+                         ); for the two `crds:` loader sites (makeConfigFromApiMap, loadCrdIntoConfig) the claim is
+                         weaker and stated here: they ARE reached by builds with a `crds:` field; what they collect
+                         (field specs and name-reference rules) is merged and sorted by TransformerConfig.Merge before
+                         use, and the C01 repetition / fresh-process oracle builds trees with a `crds:` file (family
+                         "+crds") to check that the build result does not depend on the iteration order
      JCommutes           the name-reference loop over a pointer-keyed map: each filter writes only its own
                          referrer (see Res/NameRefOrder.v / design.d/C01.md); only the identity of the error
                          returned when several referrers fail can depend on the order
